@@ -11,6 +11,7 @@ package main
 // contract identifier denotes.
 
 import (
+	"regexp"
 	"encoding/json"
 	"fmt"
 	"go/token"
@@ -947,19 +948,178 @@ func collectTypes(pkgs []*types.Package) (map[string][]varInfo, map[string]*type
 func computeFieldRenames(base map[string][]varInfo, cur map[string][]varInfo, structs map[string]*types.Struct) []string {
 	var notes []string
 	for k, cf := range cur {
-		bf, ok := base[k]
+		bf, ok := base[canonRenamedTypes(k)]
 		if !ok {
 			continue
 		}
-		seq := pairSeq(bf, cf)
 		stt := structs[k]
-		for j, o := range seq {
-			if o != "" && o != cf[j].N && j < stt.NumFields() {
-				fieldOld[stt.Field(j)] = o
-				notes = append(notes, fmt.Sprintf("field %s.%s is treated as the renamed %s", k, cf[j].N, o))
+		// a field that disappeared is paired with the field that appeared with the same type and tag, if unique
+		// (independent of the order of the fields)
+		bn, cn := map[string]bool{}, map[string]bool{}
+		for _, v := range bf {
+			bn[v.N] = true
+		}
+		for _, v := range cf {
+			cn[v.N] = true
+		}
+		key := func(v varInfo) string { return canonRenamedTypes(v.T) + "|" + v.D }
+		gone, fresh := map[string][]string{}, map[string][]int{}
+		for _, v := range bf {
+			if !cn[v.N] {
+				gone[key(v)] = append(gone[key(v)], v.N)
+			}
+		}
+		for j, v := range cf {
+			if !bn[v.N] {
+				fresh[key(v)] = append(fresh[key(v)], j)
+			}
+		}
+		for kk, g := range gone {
+			f := fresh[kk]
+			if len(g) != len(f) {
+				continue
+			}
+			// several renamed fields of the same type and tag: keep their relative order
+			for i := range g {
+				if f[i] < stt.NumFields() {
+					fieldOld[stt.Field(f[i])] = g[i]
+					notes = append(notes, fmt.Sprintf("field %s.%s is treated as the renamed %s", k, cf[f[i]].N, g[i]))
+				}
 			}
 		}
 	}
 	sort.Strings(notes)
 	return notes
+}
+
+// ---- package-level objects (named types, variables, constants) ----
+
+type objInfo struct {
+	K string `json:"k"`           // type | var | const
+	T string `json:"t"`           // underlying type (types) or declared type (vars, consts)
+	V string `json:"v,omitempty"` // constant value
+	M string `json:"m,omitempty"` // method names of a type
+}
+
+// objOldToCur / objCurToOld: "pkg.name" (pkg as in typeKey: "" for the module root) of renamed package-level objects.
+var objOldToCur = map[string]string{}
+var objCurToOld = map[string]string{}
+var typeRenameRes []*regexp.Regexp
+var typeRenameTo []string
+
+func objKey(p *types.Package, name string) string {
+	if sp := shortPkg(p.Path()); sp != "" {
+		return sp + "." + name
+	}
+	return name
+}
+
+func collectObjs(pkgs []*types.Package) map[string]objInfo {
+	out := map[string]objInfo{}
+	for _, p := range pkgs {
+		sc := p.Scope()
+		for _, n := range sc.Names() {
+			switch o := sc.Lookup(n).(type) {
+			case *types.TypeName:
+				if o.IsAlias() {
+					continue
+				}
+				var ms []string
+				if nt, ok := o.Type().(*types.Named); ok {
+					for i := 0; i < nt.NumMethods(); i++ {
+						ms = append(ms, nt.Method(i).Name())
+					}
+				}
+				sort.Strings(ms)
+				out[objKey(p, n)] = objInfo{K: "type", T: typeStr(o.Type().Underlying()), M: strings.Join(ms, ",")}
+			case *types.Var:
+				out[objKey(p, n)] = objInfo{K: "var", T: typeStr(o.Type())}
+			case *types.Const:
+				out[objKey(p, n)] = objInfo{K: "const", T: typeStr(o.Type()), V: o.Val().ExactString()}
+			}
+		}
+	}
+	return out
+}
+
+// computeObjRenames pairs package-level objects that disappeared with ones that appeared when kind, type, methods
+// and (for constants) value agree and the pairing is unique. A renamed type changes the printed type of objects that
+// mention it, so types are paired first and the comparison of the others is made modulo those renames.
+func computeObjRenames(base, cur map[string]objInfo) []string {
+	var notes []string
+	pkgOf := func(k string) string {
+		if i := strings.LastIndex(k, "."); i >= 0 {
+			return k[:i]
+		}
+		return ""
+	}
+	canon := func(t string) string { return t }
+	pass := func(kind string) {
+		var gone, fresh []string
+		for k, o := range base {
+			if _, ok := cur[k]; !ok && o.K == kind {
+				gone = append(gone, k)
+			}
+		}
+		for k, o := range cur {
+			if _, ok := base[k]; !ok && o.K == kind {
+				fresh = append(fresh, k)
+			}
+		}
+		sort.Strings(gone)
+		sort.Strings(fresh)
+		sig := func(o objInfo) string { return o.K + "|" + canon(o.T) + "|" + o.V + "|" + o.M }
+		for _, g := range gone {
+			var cands []string
+			for _, f := range fresh {
+				if pkgOf(f) == pkgOf(g) && sig(cur[f]) == sig(base[g]) {
+					cands = append(cands, f)
+				}
+			}
+			n := 0
+			for _, g2 := range gone {
+				if pkgOf(g2) == pkgOf(g) && sig(base[g2]) == sig(base[g]) {
+					n++
+				}
+			}
+			if len(cands) == 1 && n == 1 {
+				objOldToCur[g] = cands[0]
+				objCurToOld[cands[0]] = g
+				notes = append(notes, fmt.Sprintf("package-level %s %s is treated as the renamed %s", kind, cands[0], g))
+			}
+		}
+	}
+	pass("type")
+	// printed types of the remaining objects, modulo the type renames
+	for c, o := range objCurToOld {
+		if cur[c].K != "type" {
+			continue
+		}
+		cn, on := c, o
+		if i := strings.LastIndex(cn, "."); i >= 0 {
+			cn, on = cn[i+1:], on[strings.LastIndex(on, ".")+1:]
+		}
+		re := regexp.MustCompile(`(^|[^A-Za-z0-9_])` + regexp.QuoteMeta(cn) + `($|[^A-Za-z0-9_])`)
+		typeRenameRes = append(typeRenameRes, re)
+		typeRenameTo = append(typeRenameTo, "${1}"+on+"${2}")
+	}
+	canon = canonRenamedTypes
+	pass("const")
+	pass("var")
+	sort.Strings(notes)
+	return notes
+}
+
+// canonRenamedTypes spells renamed module types with their pinned names inside a printed type.
+func canonRenamedTypes(s string) string {
+	for i, re := range typeRenameRes {
+		for {
+			n := re.ReplaceAllString(s, typeRenameTo[i])
+			if n == s {
+				break
+			}
+			s = n
+		}
+	}
+	return s
 }
